@@ -30,28 +30,40 @@ TierOf(s) == IF s >= GridFrom THEN GridTier ELSE Tier
 IntToks(t) == IF t = "mini" THEN {TM1} ELSE IF t = "quick" THEN {TM1, T255} ELSE {T0, TM1, TMAX, T255}
 StrToks(t) == IF t = "mini" THEN {TOL} ELSE IF t = "quick" THEN {TE, TOL} ELSE {TE, TOL, TYZ}
 RepMax == 2
-\* the value tokens field f may take in an assignment: those its type converts, and for a
-\* positional only tokens that do not start with '-' (whether those are values is a policy)
-Dom(f, t) ==
+\* option-like values of a positional (the statement names "option-like values" among the inputs of
+\* the round trip): dash-prefixed tokens that are not a declared literal of the positional's own
+\* struct level and not a help literal, incl. a literal declared at ANOTHER (enclosing) level
+TDX == <<45,45,120>>                                          \* --x
+TDD == <<45,45>>                                              \* --
+TD == <<45>>                                                  \* -
+TOLE == <<45,45,111,112,116,45,108,105,107,101,61,49>>        \* --opt-like=1
+PosExtra(t) == IF t = "mini" THEN {TDX} ELSE IF t = "quick" THEN {TDX, TD, TOL} ELSE {TDX, TDD, TD, TM1, TOL, TOLE}
+LevelLits(S) == UNION {Lits(S.fields[i]) : i \in {j \in 1..NF(S) : IsOpt(S.fields[j])}}
+\* the value tokens field f of struct S may take in an assignment: those its type converts; a
+\* positional takes every such token except the literals of its own level and the help literals
+\* (those ARE something else at that place); anc = literals declared by the enclosing levels
+Dom(S, f, t, anc) ==
     LET base == IF f.ty = "int" THEN IntToks(t) ELSE StrToks(t)
+        other == IF anc = {} THEN {} ELSE IF t = "thorough" THEN anc ELSE {CHOOSE x \in anc : TRUE}
         all  == IF f.kind # "positional" THEN base
-                ELSE {x \in base \cup (IF f.ty = "int" THEN {T255} ELSE {TX}) : ~Dashed(x)}
+                ELSE {x \in base \cup (IF f.ty = "int" THEN {T255, TM1} ELSE {TX} \cup PosExtra(t) \cup other) :
+                        x \notin LevelLits(S) /\ x \notin HelpToks}
     IN IF f.ty = "int" THEN {x \in all : ParseInt(x, f.lo, f.hi).ok} ELSE all
-FieldAsg(f, t) ==
+FieldAsg(S, f, t, anc) ==
     IF f.kind = "flag" THEN {FALSE, TRUE}
-    ELSE IF f.pkg = "required" THEN {<<x>> : x \in Dom(f, t)}
-    ELSE IF f.pkg = "optional" THEN {<<>>} \cup {<<x>> : x \in Dom(f, t)}
-    ELSE UNION {[1..k -> Dom(f, t)] : k \in 0..RepMax}
+    ELSE IF f.pkg = "required" THEN {<<x>> : x \in Dom(S, f, t, anc)}
+    ELSE IF f.pkg = "optional" THEN {<<>>} \cup {<<x>> : x \in Dom(S, f, t, anc)}
+    ELSE UNION {[1..k -> Dom(S, f, t, anc)] : k \in 0..RepMax}
 RECURSIVE Prod(_)
 Prod(ss) == IF ss = <<>> THEN {<<>>} ELSE {<<h>> \o t : h \in Head(ss), t \in Prod(Tail(ss))}
-RECURSIVE TokAsg(_, _)
-TokAsg(S, t) ==
-    LET fs == Prod([i \in 1..NF(S) |-> FieldAsg(S.fields[i], t)])
+RECURSIVE TokAsg(_, _, _)
+TokAsg(S, t, anc) ==
+    LET fs == Prod([i \in 1..NF(S) |-> FieldAsg(S, S.fields[i], t, anc)])
         scs == IF ~HasSub(S) THEN {<<>>}
                ELSE (IF SubOf(S).opt THEN {<<>>} ELSE {}) \cup
                     UNION {{<<[tag |-> k, v |-> iv]>> :
                               iv \in IF SubOf(S).tags[k].inner = <<>> THEN {NoVal}
-                                     ELSE TokAsg(SubOf(S).tags[k].inner[1], t)} :
+                                     ELSE TokAsg(SubOf(S).tags[k].inner[1], t, anc \cup LevelLits(S))} :
                            k \in 1..Len(SubOf(S).tags)}
     IN {[f |-> f, sc |-> sc] : f \in fs, sc \in scs}
 
@@ -89,7 +101,7 @@ Init ==
         /\ sh = s /\ in = <<>> /\ want = <<>> /\ rem = <<>> /\ res = Running
         /\ stk = <<Frame0(Shapes[s], <<>>)>> /\ arms = {}
         /\ IF Mode = "lists" THEN ph = "build" /\ asg = <<>>
-           ELSE ph = "pick" /\ \E tv \in TokAsg(Shapes[s], TierOf(s)) : asg = <<tv>>
+           ELSE ph = "pick" /\ \E tv \in TokAsg(Shapes[s], TierOf(s), {}) : asg = <<tv>>
 
 Pick ==
     /\ ph = "pick" /\ ph' = "run" /\ asg' = <<>>
@@ -120,9 +132,15 @@ Next == Extend \/ Go \/ Pick \/ Step \/ Done
 Progress == (ph = "run" /\ res = Running) => Len(rem) + Len(stk) >= 1
 AtEnd ==
     res = Running \/
-    LET adm == Admissible(Shapes[sh], in)
+    \* For a RENDERING the round-trip clause of the statement decides alone: the admissible set is
+    \* {Ok(the assignment)} - also where the line touches a policy point (an option-like positional
+    \* value), because the statement quantifies the round trip over option-like values.  rt: the
+    \* definition agrees (it admits that outcome, and nothing else when no policy point is touched).
+    LET def == Admissible(Shapes[sh], in)
+        adm == IF want = <<>> THEN def ELSE {OkOut(want[1])}
         trok == res \in adm
-        rt == want = <<>> \/ adm = {OkOut(want[1])}
+        rt == want = <<>> \/ (/\ OkOut(want[1]) \in def
+                             /\ (GrayDims(Shapes[sh], in) = {} => def = {OkOut(want[1])}))
     IN PrintT(<<"V", ToJson([s |-> sh, a |-> in, adm |-> SetToSeq(adm), tr |-> res,
                              trok |-> trok, rt |-> rt, w |-> want # <<>>, arms |-> SetToSeq(arms)])>>)
 \* "accepts EXACTLY the command lines of its declared grammar", inside the specification: a line
